@@ -565,3 +565,48 @@ def r10i(ctx):
         else:
             ctx.bad(cid, bj.module.loc(t), f"`{name}` splits the non-broadcast side without the key-cast predicate {sorted(preds)} that RearrangeByColumn applies to the broadcast side: keys the two rules hash differently never meet")
     ctx.floor("splitters in BroadcastJoin._layer", n, 1)
+
+
+# ---------------------------------------------------------------------------------------------
+# R10j
+# ---------------------------------------------------------------------------------------------
+
+
+@rule(
+    "R10j",
+    ["C10", "C02"],
+    """ORDER-DEPENDENT AGGREGATIONS GET AN ORDER-PRESERVING SHUFFLE: with split_out > 1 ShuffleReduce shuffles the chunk results and
+    aggregates them per output partition; first / last / head / tail / keep='first' take "the first row of the concatenated chunks".
+    (a) The shuffle ShuffleReduce._lower builds must take its method from `_get_shuffle_preferring_order(...)` (tasks over disk when
+    nothing was asked for), like the drop_duplicates / unique entry points do - the raw parameter falls back to the disk shuffle.
+    (b) A shuffle implementation keeps the input order only if the pieces it stores can be put back in input order: each per-input
+    task must hand the POSITION of its input to the store. DiskShuffle appends to one shared partd under the output number alone, so the
+    order of the pieces is the order in which the tasks happened to run.""",
+)
+def r10j(ctx):
+    model = ctx.model
+    sr = model.cls("ShuffleReduce", "_reductions")
+    lw = model.method(sr, "_lower", own=True).node
+    n = 0
+    for call in (c for c in ast.walk(lw) if isinstance(c, ast.Call) and isinstance(c.func, ast.Name) and c.func.id in ("RearrangeByColumn", "Shuffle")):
+        n += 1
+        kw = next((k for k in call.keywords if k.arg == "method"), None)
+        cid = f"_reductions.ShuffleReduce._lower:{call.func.id}:method"
+        if kw is not None and isinstance(kw.value, ast.Call) and dotted(kw.value.func) == "_get_shuffle_preferring_order":
+            ctx.ok(cid, sr.module.loc(call), "the shuffle method prefers an order preserving implementation")
+        else:
+            ctx.bad(cid, sr.module.loc(call), f"the chunks are shuffled with method `{unparse(kw.value) if kw is not None else 'default'}`: without an explicit method that is the disk based shuffle, which returns the pieces of an output partition in task execution order - groupby first / last / head / tail with split_out > 1 (chosen automatically for multi-key group-bys on > 10 partitions) answer with the value of an arbitrary input partition")
+    ctx.floor("shuffles built by ShuffleReduce._lower", n, 1)
+    # (b) shuffle implementations and input order
+    ds = model.cls("DiskShuffle", "_shuffle")
+    lay = model.method(ds, "_layer", own=True).node
+    for comp in (x for x in ast.walk(lay) if isinstance(x, ast.DictComp) and "_shuffle_group" in ast.unparse(x.value)):
+        gen = comp.generators[0]
+        pos = gen.target.elts[0].id if isinstance(gen.target, ast.Tuple) and "enumerate(" in ast.unparse(gen.iter) and isinstance(gen.target.elts[0], ast.Name) else None
+        task = comp.value
+        passes_pos = pos is not None and isinstance(task, ast.Tuple) and any(isinstance(a, ast.Name) and a.id == pos for a in task.elts[1:])
+        cid = "_shuffle.DiskShuffle._layer:input-order"
+        if passes_pos:
+            ctx.ok(cid, ds.module.loc(comp), "each per-input task hands its input position to the store")
+        else:
+            ctx.bad(cid, ds.module.loc(comp), "the per-input tasks append their pieces to one shared store keyed by the output partition only (the input position never reaches _shuffle_group): collect() returns the pieces of an output partition in the order the tasks ran, not in input order - with shuffle_method='disk' groupby first/last(split_out=2), groupby ffill/bfill and drop_duplicates(keep=...) see permuted rows and can differ from run to run")
